@@ -49,8 +49,59 @@ def splitHashes : Bytes → List Bytes
 termination_by bs => bs.length
 decreasing_by simp [List.length_drop]; omega
 
+/-! ### parsing the canonical dump back into a value (so that the *encoder* can be compared on
+    values the harness constructs, not only on values that came out of the decoder) -/
+
+def stripPrefix? (s pre : String) : Option String :=
+  if s.startsWith pre then some (s.drop pre.length).toString else none
+
+def unbracket? (s : String) : Option String :=
+  if s.startsWith "[" && s.endsWith "]" then some ((s.drop 1).dropEnd 1).toString else none
+
+def splitNonEmpty (s : String) (sep : String) : List String :=
+  if s.isEmpty then [] else s.splitOn sep
+
+def parseIn (s : String) : Option TxIn :=
+  match s.splitOn ":" with
+  | [h, i, sc, q] => do
+    let hb ← parseHex h
+    let idx ← i.toNat?
+    let scb ← parseHex sc
+    let sq ← q.toNat?
+    some ⟨⟨hb, idx⟩, scb, sq⟩
+  | _ => none
+
+def parseOut (s : String) : Option TxOut :=
+  match s.splitOn ":" with
+  | [v, sc] => do
+    let val ← v.toNat?
+    let scb ← parseHex sc
+    some ⟨val, scb⟩
+  | _ => none
+
+def parseWit (s : String) : Option Witness :=
+  if s == "." then some [] else (s.splitOn ",").mapM parseHex
+
+def parseTxDump (args : List String) : Option Tx :=
+  match args with
+  | [v, i, o, w, l] => do
+    let ver ← (← stripPrefix? v "ver=").toNat?
+    let ins ← (splitNonEmpty (← unbracket? (← stripPrefix? i "in=")) ";").mapM parseIn
+    let outs ← (splitNonEmpty (← unbracket? (← stripPrefix? o "out=")) ";").mapM parseOut
+    let ws ← stripPrefix? w "wit="
+    let wits ← (if ws == "none" then some none else do
+      let body ← unbracket? ws
+      let stacks ← (splitNonEmpty body "|").mapM parseWit
+      some (some stacks))
+    let lock ← (← stripPrefix? l "lock=").toNat?
+    some ⟨ver, ins, outs, wits, lock⟩
+  | _ => none
+
 def wireOp (op : String) (args : List String) : Option String :=
   match op, args with
+  | "tx.enc", dump => do
+    let t ← parseTxDump dump
+    some s!"ok enc={encStr (encTx t true)} encnw={encStr (encTx t false)} size={sizeTx t true} sizenw={sizeTx t false} weight={weightTx t} vsize={vsizeTx t} txid={idStr (encTx t false)} wtxid={idStr (encTx t true)}"
   | "varint.dec", [h] => do
     let bs ← parseHex h
     some (withRest (fun v => s!"{v} size={varintSize v} enc={hexOf (encVarint v)}") (decVarint bs))
